@@ -68,10 +68,11 @@ impl Fam {
     }
     pub fn count(self, tier: Tier) -> u64 {
         match self {
+            Fam::IntDec(3) if tier == Tier::Quick => 1000 * 20 + 1000 * 7 * QUICK3_COMBOS.len() as u64,
             Fam::IntDec(n) => 10u64.pow(n as u32) * us_opts(n, tier).pow(n as u32) * 20,
             Fam::IntNeg => 1110 * 12 * 2,
             Fam::IntBound => BOUND_VALUES.len() as u64 * 5 * 20 * 2,
-            Fam::Hex(n) => 22u64.pow(n as u32) * 8,
+            Fam::Hex(n) => 22u64.pow(n as u32) * hex_ctx(n, tier).len() as u64,
             Fam::HexBound => HEX_BOUND.len() as u64 * 2 * 8,
             Fam::HexExtra => HEX_EXTRA_D.len() as u64 * HEX_EXTRA_FORMS as u64 * HEX_EXTRA_CTX.len() as u64,
             Fam::FloatCore => {
@@ -111,7 +112,7 @@ impl Fam {
             Fam::IntDec(n) => int_dec(n, tier, idx),
             Fam::IntNeg => int_neg(idx),
             Fam::IntBound => int_bound(idx),
-            Fam::Hex(n) => hex_n(n, idx),
+            Fam::Hex(n) => hex_n(n, tier, idx),
             Fam::HexBound => hex_bound(idx),
             Fam::HexExtra => hex_extra(idx),
             Fam::FloatCore => float_core(tier, idx),
@@ -216,12 +217,28 @@ fn judge_int(c: &mut Case, ctx: Ty, mag: u128, neg: bool, grammar_ok: bool) {
     }
 }
 
+/// quick tier, three digits: every digit string with every suffix / context
+/// without underscores, and every `_` placement (none doubled) with these
+/// combinations only: `u8` suffix, `f32` suffix, no suffix as u16, as i64
+const QUICK3_COMBOS: [u64; 4] = [0, 8, 11, 17];
+
 fn int_dec(n: usize, tier: Tier, idx: u64) -> Case {
     let o = us_opts(n, tier);
     let mut rad = vec![10u64.pow(n as u32)];
     rad.extend(std::iter::repeat_n(o, n));
     rad.push(20);
-    let d = decode(idx, &rad);
+    let d = if n == 3 && tier == Tier::Quick {
+        if idx < 20000 {
+            let d = decode(idx, &[1000, 20]);
+            vec![d[0], 0, 0, 0, d[1]]
+        } else {
+            let d = decode(idx - 20000, &[1000, 7, QUICK3_COMBOS.len() as u64]);
+            let us = d[1] + 1;
+            vec![d[0], us >> 2 & 1, us >> 1 & 1, us & 1, QUICK3_COMBOS[d[2] as usize]]
+        }
+    } else {
+        decode(idx, &rad)
+    };
     let digits = format!("{:0w$}", d[0], w = n);
     let mut s = String::new();
     for (i, ch) in digits.chars().enumerate() {
@@ -303,12 +320,17 @@ fn judge_hex(c: &mut Case, ctx: Ty, mag: u128, neg: bool, grammar_ok: bool) {
     judge_int(c, ctx, mag, neg, grammar_ok);
 }
 
-fn hex_n(n: usize, idx: u64) -> Case {
+fn hex_ctx(n: usize, tier: Tier) -> &'static [Ty] {
+    if n == 3 && tier == Tier::Quick { &[Ty::U8, Ty::I16, Ty::U32, Ty::I64] } else { &INT_TYS }
+}
+
+fn hex_n(n: usize, tier: Tier, idx: u64) -> Case {
+    let ctxs = hex_ctx(n, tier);
     let mut rad = vec![22u64; n];
-    rad.push(8);
+    rad.push(ctxs.len() as u64);
     let d = decode(idx, &rad);
     let digits: String = d[..n].iter().map(|i| HEXA[*i as usize] as char).collect();
-    let ctx = INT_TYS[d[n] as usize];
+    let ctx = ctxs[d[n] as usize];
     let mut c = Case::new("hex", ctx, format!("0x{digits}"));
     judge_hex(&mut c, ctx, dec_hex(&digits).unwrap(), false, true);
     c
